@@ -17,7 +17,8 @@ RULE = ('programs: kernel family K (producer conv -> causally padded Conv1d with
         'BN, fold_bn -> flatten -> linear) and grammar G_pit (all stage sequences up to the depth bound x 3 heads x 1D/2D, plus all '
         'single-option deviations); configurations: complete (channel-mask x RF-suffix x dilation-level) lattice when it has '
         '<= cap states, otherwise every configuration within d single-element deviations of "all open" plus the all-minimum corners; '
-        'non-trivial = a (program, configuration) pair with at least one pruned element')
+        'non-trivial = a (program, configuration) pair with at least one pruned element; a deterministic third of the programs is explored on a deep '
+        'copy of the converted model with the original kept alive and untouched (signature suffix /on-deep-copy)')
 ASSUMPTIONS = ['"on every input" is decided on a seeded generic witness batch of 3 inputs (DESIGN.md A3)',
                'binarisation abstraction A1 (eval-mode forward/export depend on mask parameters only through the binarised theta) is '
                'exercised rather than assumed: 4 real-valued representatives per abstract configuration ' + str(list(zip(D.PRUNED_REPS, D.KEPT_REPS))) +
@@ -256,6 +257,22 @@ def run_case(case, seed):
                                   'msg': f'PIT() raised {type(ctx["error"]).__name__}: {ctx["error"]}', 'case': base_case})
         return res
     pit, x = ctx['pit'], ctx['x']
+    # on a (deterministic) third of the programs - not the third C09 uses - the whole lattice is explored on a deep COPY of the converted
+    # model (a snapshot / EMA copy / a copy handed to another process), the original being kept alive and untouched with all masks open:
+    # the copy must be self-contained, what it evaluates and what it exports must follow ITS masks
+    import copy
+    import hashlib
+    import json
+    dc = int(hashlib.sha1(json.dumps(prog, sort_keys=True).encode()).hexdigest(), 16) % 3 == 2
+    if dc:
+        ctx['original_kept_alive'] = pit
+        try:
+            pit = copy.deepcopy(pit)
+        except Exception as e:
+            res.update(states=1, evals=1, outcomes=['deepcopy-raises'])
+            res['violations'].append({'kind': 'deepcopy-raises', 'sig': 'deepcopy-raises/' + _shape_sig(prog, fold),
+                                      'msg': f'copy.deepcopy(PIT(model)) raised {type(e).__name__}: {str(e)[:200]}', 'case': base_case})
+            return res
     pit.eval()
     els = D.elements(pit, prog)
     if case.get('cfg') is not None:
@@ -266,6 +283,7 @@ def run_case(case, seed):
     # (exact 0/1, values just across the threshold, negative, huge) - all four for the kernel family K when a time mask is
     # pruned, rotating otherwise
     isK = prog.get('family') == 'K'
+    dcs, dcm = ('/on-deep-copy', ' [explored on a deep copy, original kept alive with all masks open]') if dc else ('', '')
     work = []
     for n, cfg in enumerate(cfgs):
         timed = any(els[i]['kind'] in ('rf', 'dil') for i in cfg)
@@ -292,13 +310,13 @@ def run_case(case, seed):
                 y_exp = exp(x)
         except Exception as e:
             res['outcomes'].add('export-or-run-raises')
-            res['violations'].append({'kind': 'export-or-run-raises', 'sig': f'export-or-run-raises/{kinds}/' + _shape_sig(prog, fold),
-                                      'msg': f'cfg={desc} rep={rep}: {type(e).__name__}: {str(e)[:300]}', 'case': vcase})
+            res['violations'].append({'kind': 'export-or-run-raises', 'sig': f'export-or-run-raises/{kinds}/' + _shape_sig(prog, fold) + dcs,
+                                      'msg': f'cfg={desc} rep={rep}{dcm}: {type(e).__name__}: {str(e)[:300]}', 'case': vcase})
             continue
         ok, why = tol.out_close(y_pit, y_exp)
         if not ok:
             res['outcomes'].add('output-differs')
-            sig = f'output-differs/{kinds}/' + _shape_sig(prog, fold)
+            sig = f'output-differs/{kinds}/' + _shape_sig(prog, fold) + dcs
             # causal attribution to D25: insert the BN export() forgot at repeated call sites; if that alone
             # removes the mismatch the case is the listed finding, otherwise it is something else
             try:
@@ -310,18 +328,18 @@ def run_case(case, seed):
             except Exception:
                 pass
             res['violations'].append({'kind': 'output-differs', 'sig': sig,
-                                      'msg': f'cfg={desc} rep={rep}: PIT.eval()(x) vs export().eval()(x): {why}', 'case': vcase})
+                                      'msg': f'cfg={desc} rep={rep}{dcm}: PIT.eval()(x) vs export().eval()(x): {why}', 'case': vcase})
         bad = D.struct_check(pit, exp, prog)
         if bad:
             res['outcomes'].add('structure-differs')
-            res['violations'].append({'kind': 'structure-differs', 'sig': f'structure-differs/{kinds}/' + _shape_sig(prog, fold),
-                                      'msg': f'cfg={desc} rep={rep}: ' + '; '.join(bad[:4]), 'case': vcase})
+            res['violations'].append({'kind': 'structure-differs', 'sig': f'structure-differs/{kinds}/' + _shape_sig(prog, fold) + dcs,
+                                      'msg': f'cfg={desc} rep={rep}{dcm}: ' + '; '.join(bad[:4]), 'case': vcase})
         if ok and not bad:
             res['outcomes'].add('equal' if cfg else 'equal-unpruned')
         if cfg:
             res['nontrivial'].append(_key(prog, fold, [desc, rep]))
     res['outcomes'] = sorted(res['outcomes'])
-    res['sample'] = {'prog': prog, 'fold_bn': fold, 'n_elements': len(els), 'n_configs': len(cfgs), 'complete_lattice': complete,
+    res['sample'] = {'prog': prog, 'fold_bn': fold, 'explored_on_deep_copy': dc, 'n_elements': len(els), 'n_configs': len(cfgs), 'complete_lattice': complete,
                      'last_cfg': D.describe(els, cfgs[-1])}
     return res
 
